@@ -529,7 +529,7 @@ func (p *c13) freeRunning(sc *runner.Scenario, ex *c13Extra, st *runner.Stats, p
 	if n, err := strconv.Atoi(os.Getenv("VERIF_C13_ATTEMPTS")); err == nil && n > 0 {
 		attempts = n
 	}
-	if pin != "" {
+	if pin != "" || os.Getenv("VERIF_REPLAY") != "" {
 		attempts = 200 // replay / shrinking: the schedule is not owned, try harder
 	}
 	st.InFlight(sc)
